@@ -226,6 +226,23 @@ Theorem C08_views_agree : forall view o,
   (forall e, validate_owner_reffed_r view o = Raised e -> e = ExAttributeError).
 Proof. exact views_agree. Qed.
 
+(* _extract_last_applied (as repaired by /repo 69b5a7d): a truthy live object
+   that is not a map raises AttributeError; on a map only json.loads can raise
+   (non-str annotation: TypeError; text that does not parse: ValueError); a
+   non-map metadata / annotations reads as "no last-applied" *)
+Theorem C08_extract_raises_cases : forall live ann e,
+  extract_last_applied_r live ann = Raised e ->
+  (is_map live = false /\ e = ExAttributeError) \/
+  (is_map live = true /\ (e = ExTypeError \/ (e = ExValueError /\ ann = None))).
+Proof. exact extract_raises_cases. Qed.
+
+Theorem C08_extract_nonmap_holder_none : forall top ann,
+  (forall md, lookup "metadata" top = Some md -> is_map md = false \/
+     exists mkvs, md = JMap mkvs /\
+       forall an, lookup "annotations" mkvs = Some an -> is_map an = false) ->
+  extract_last_applied_r (JMap top) ann = Done None.
+Proof. exact extract_nonmap_holder_none. Qed.
+
 (* ---- non-vacuity and necessity of the hypotheses -------------------------- *)
 
 Definition ex_owner : json :=
@@ -322,3 +339,5 @@ Print Assumptions C08_patch_preserves_owners.
 Print Assumptions C08_patch_preserves_owners_gen.
 Print Assumptions C08_patch_result_refs.
 Print Assumptions C08_views_agree.
+Print Assumptions C08_extract_raises_cases.
+Print Assumptions C08_extract_nonmap_holder_none.
